@@ -376,5 +376,13 @@ def rule_d(ctx: Ctx) -> None:
                 'edge of a for-loop over the group declarations whose body refuses on a matching declaration that is not over.')
 
 
-RULES = [rule_a, rule_b, rule_c, rule_d]
+def rule_e(ctx: Ctx) -> None:
+    """The names a head element accepts in a content model (`substitutes`, filled from iter_substitutes at build time and trusted by
+    match()/is_matching()) include the concrete members below an abstract intermediate member (C07.c closure body)."""
+    from .c07 import substitutes_closure
+    substitutes_closure(ctx, 'C01.e')
+    ctx.explain('C01.e: the recursion of iter_substitutes is not control dependent on the abstractness of the member.')
+
+
+RULES = [rule_a, rule_b, rule_c, rule_d, rule_e]
 THOROUGH = [thorough_a]
